@@ -266,6 +266,9 @@ func checkC14(c ClientHSCase, o *Obs) error {
 	if err1 != nil || conn1 == nil {
 		return fmt.Errorf("Dial(%q) against a valid 101 reply failed: %v", c.url(), err1)
 	}
+	if rc.Starved > 0 {
+		return fmt.Errorf("Dial(%q): after the complete valid 101 reply Dial asked the connection for more input %d time(s) before returning; a server that waits for the client to speak first would never get the chance", c.url(), rc.Starved)
+	}
 	req1 := rc.Reqs
 	if len(req1) != 1 {
 		return fmt.Errorf("first dial wrote %d requests", len(req1))
